@@ -100,6 +100,12 @@ class Unit:
         self.abbrev_off = None
         self.abbrevs = None            # list of (code, tag, flag, [(name, form, implicit)])
         self.hdr_size = 12 if version >= 5 else 11
+        # DWARF 5 type units carry a signature and a type offset, skeleton units a dwo id
+        self.kind = None
+        if version >= 5 and root is not None and root.tag == "DW_TAG_type_unit":
+            self.kind, self.hdr_size = "type", 12 + 12
+        elif version >= 5 and root is not None and root.tag == "DW_TAG_skeleton_unit":
+            self.kind, self.hdr_size = "skeleton", 12 + 8
 
     def dies(self):
         return list(self.root.walk()) if self.root else []
@@ -293,7 +299,14 @@ def layout(forest):
                 emit(u.root, None)
             if u.version >= 5:
                 ut = C("DW_UT_partial") if u.root is not None and u.root.tag == "DW_TAG_partial_unit" else C("DW_UT_compile")
-                hdr = le(u.version, 2) + [ut, 8] + le(u.abbrev_off, 4)
+                extra = []
+                if u.kind == "type":
+                    ut = C("DW_UT_type")
+                    extra = le(0x1122334455667700 + (u.off & 0xff), 8) + le(u.hdr_size + 4, 4)
+                elif u.kind == "skeleton":
+                    ut = C("DW_UT_skeleton")
+                    extra = le(0x0102030405060700 + (u.off & 0xff), 8)
+                hdr = le(u.version, 2) + [ut, 8] + le(u.abbrev_off, 4) + extra
             else:
                 hdr = le(u.version, 2) + le(u.abbrev_off, 4) + [8]
             info += le(len(hdr) + len(body), 4) + hdr + body
